@@ -7,9 +7,9 @@ obligation of its own carries a trailing `// @<clause-id>` marker on its line; t
 
 # ---------------------------------------------------------------------------------------------- Version (src/lib.rs)
 VERSION = {
-    'eq': dict(entry='proof { lemma_pre_eq(self.pre_release@, other.pre_release@); }'),
+    'eq': dict(entry='proof { lemma_pre_eq(self.pre_release@, other.pre_release@); lemma_pre_eq(other.pre_release@, self.pre_release@); lemma_pre_flip(self.pre_release@, other.pre_release@); }'),   # either operand order
     'partial_cmp': dict(),
-    'cmp': dict(entry='proof { lemma_vec_lex_is_pre_cmp(self.pre_release@, other.pre_release@); }'),
+    'cmp': dict(entry='proof { lemma_vec_lex_is_pre_cmp(self.pre_release@, other.pre_release@); lemma_vec_lex_is_pre_cmp(other.pre_release@, self.pre_release@); lemma_pre_flip(self.pre_release@, other.pre_release@); }'),   # either operand order
     'is_prerelease': dict(ret='r', contract='    ensures r == (self.pre_release@.len() > 0)'),
     'diff': dict(ret='r', contract='    ensures r == diff_spec(key(*self), key(*other)),', entry='broadcast use group_k_order;'),
     'hash': dict(contract='    ensures fed(final(state)) == fed(old(state)) + hash_feed(key(*self)),'),
@@ -425,3 +425,13 @@ RANGE['intersect'] = _tpl(RANGE['intersect'], {'lefty': '$L0', 'righty': '$L1', 
 RANGE['difference'] = _tpl(RANGE['difference'], {'lefty': '$L0', 'righty': '$L1', 'piece': '$L2', 'predicates': '$M0', 'remainders': '$M1', 'next': '$M2'})
 RANGE['min_version'] = _tpl(RANGE['min_version'], {'range': '$L0', 'min': '$M0'})
 INTERSECT_ALL = _tpl(INTERSECT_ALL, {'comparator': '$L0', 'acc': '$M0'})
+
+# which collection each annotated loop runs over (regex on the loop header's iterable, blanks removed; placeholders allowed)
+_SELF = r'&self\.0|self\.0\.iter\(\)'
+_OTHER = r'&$P0\.0|$P0\.0\.iter\(\)'
+RANGE['satisfies']['loop_over'] = [(0, _SELF)]
+RANGE['min_version']['loop_over'] = [(0, _SELF)]
+for _k in ('allows_any', 'allows_all', 'intersect'):
+    RANGE[_k]['loop_over'] = [(0, _SELF), (1, _OTHER)]
+RANGE['difference']['loop_over'] = [(0, _SELF), (1, _OTHER), (2, r'&$M1|$M1\.iter\(\)')]
+INTERSECT_ALL['loop_over'] = [(0, r'$P0|$P0\.iter\(\)')]
